@@ -18,6 +18,10 @@
      first sizeof(void* ) inline cells indeterminate.
    * malloc/free events are logged (newest first); the allocator is an oracle argument
      (request index, size) -> succeed?.
+   * the source of a setter is either memory outside the node or a pointer into a heap
+     block (the node's own buffer, json_object_get_string(o) + off); a heap source is read
+     from the heap as it is when the C code reads it, so the order of copy and release
+     matters.
    LP64 constants: HDR = sizeof( *jso) - sizeof(jso->c_string) = 48, sizeof(void* ) = 8
    (harness/drv_str.c refuses to run on another ABI). *)
 From JC Require Import Base.
